@@ -6,6 +6,7 @@ import (
 	"fmt"
 	"os"
 	"runtime/debug"
+	"strings"
 
 	"github.com/MixinNetwork/mixin/common"
 	"github.com/MixinNetwork/mixin/crypto"
@@ -131,11 +132,22 @@ func ChildRecover(args []string) {
 	os.Exit(0)
 }
 
+// firstFrames keeps the repository functions of a stack trace, innermost first.
 func firstFrames(s string) string {
-	if len(s) > 1200 {
-		s = s[:1200]
+	var fr []string
+	for _, ln := range strings.Split(s, "\n") {
+		if strings.HasPrefix(ln, "github.com/MixinNetwork/mixin/") {
+			f := strings.TrimPrefix(ln, "github.com/MixinNetwork/mixin/")
+			if i := strings.LastIndex(f, "("); i > 0 {
+				f = f[:i]
+			}
+			fr = append(fr, f)
+			if len(fr) == 6 {
+				break
+			}
+		}
 	}
-	return s
+	return strings.Join(fr, " < ")
 }
 
 func scan(res *Recovered, store *storage.BadgerStore, node *kernel.Node, env *Env) {
